@@ -6,6 +6,9 @@ ALL = ["C%02d" % i for i in range(1, 21)]
 
 # property -> (technique, decided clauses (short), not decided / assumptions)
 CLAIMED = {
+ "C19": ("must-pass/exactly-once path search, value identity of the forwarded argument and returned body, closure-shape checks, constant-range check, dominance (go/ssa)",
+         "C19.1 forwarded exactly once per path; C19.2 raw body in, backend body out through invocation-local storage, unknown routes bind raw bytes; C19.3 metadata forwarded and copied back (nil-guarded); C19.4 real IP added iff absent; C19.5 the whole 1xx class becomes a NEW 502 status (with C15.1: never mutated in place); C19.6 installed as unknown handlers iff configured; C19.7 no pooled object outlives its Put",
+         "equality of proxied and direct outcomes as values (codec/body bytes through two hops); the user-supplied forwarder"),
  "C14": ("discipline analysis from a frozen guard table: field access sets (atomic consistency), intraprocedural must-locksets with one-level caller summaries, publication-order path search, wait-group/lock sharing (go/ssa)",
          "C14.1 any field accessed atomically somewhere is accessed atomically everywhere (all shipped structs; frozen set present); C14.2 guarded-field table: accesses under the declared mutex (promoted net.Conn methods of socket: known finding F11); C14.3 nothing written to a callCmd after completion is signalled; C14.4 thrift counters under their direction's lock; C14.5 WaitGroup Add/Wait share a mutex (known finding F13)",
          "data races on state outside the guard table; real happens-before over schedules (static race freedom is undecidable here: what is decided is the locking/atomic discipline the code itself declares); third-party code"),
